@@ -4,9 +4,12 @@ import (
 	"encoding/json"
 	"fmt"
 	"sort"
+	"strings"
+	"sync"
 	"time"
 
 	"verif/mc/engine"
+	"verif/mc/env"
 )
 
 type RunCtx struct {
@@ -64,7 +67,12 @@ func (u Search) Run(rc RunCtx) UnitResult {
 	for _, s := range r.Samples {
 		samples = append(samples, s)
 	}
-	return UnitResult{Name: r.Scenario, Params: r.Params, Kind: "explicit-state search", States: r.States, Transitions: r.Transitions,
+	validated, t2err := tier2(u.Sc, r.Samples)
+	if t2err != nil {
+		r.Found = append(r.Found, engine.Found{Violation: engine.Violation{Property: "HARNESS", Key: "tier2-mismatch", Msg: t2err.Error()}, Scenario: u.Sc.Name(), Params: u.Sc.Params()})
+	}
+	defer func() {}()
+	return UnitResult{Validated: validated, Name: r.Scenario, Params: r.Params, Kind: "explicit-state search", States: r.States, Transitions: r.Transitions,
 		Executed: r.TotalExecuted, Maximal: r.MaximalTraces, Evaluations: r.Attempts, Nontrivial: r.States,
 		Depth: r.DepthCompleted, DepthTarget: r.DepthTarget, Exhaustive: r.Exhaustive, Replayed: r.ReplayChecked,
 		Found: r.Found, Samples: samples, Outcomes: r.Outcomes, Wall: r.Wall}
@@ -133,3 +141,45 @@ var commonAssumptions = []string{
 }
 
 const searchRule = "explicit-state search: every sequence of events from the unit's alphabet up to the depth bound is executed on copy-on-write branches of the real application; states are de-duplicated by SHA-256 over the full content of the observable module stores, header, consensus-engine validator set and monitor memory; distinct_nontrivial = distinct canonical states"
+
+// Tier2Provider is implemented by the workers of provider-only scenarios: their traces can be
+// replayed through the full ABCI stack (env.ReplayThroughABCI).
+type Tier2Provider interface{ ProviderForTier2() *env.Provider }
+
+var tier2Mu sync.Mutex
+
+// tier2 replays the sample traces of a provider-only scenario on a fresh application through
+// InitChain / FinalizeBlock (signed transactions, ante handlers) / Commit and compares stores and
+// validator updates after every block. It returns the number of traces validated.
+func tier2(sc engine.Scenario, traces [][]string) (int64, error) {
+	tier2Mu.Lock()
+	defer tier2Mu.Unlock()
+	var n int64
+	for _, tr := range traces {
+		env.RecordNextProvider = true
+		w, err := sc.NewWorker(engine.NewStats())
+		env.RecordNextProvider = false
+		if err != nil {
+			return n, nil
+		}
+		tp, ok := w.(Tier2Provider)
+		if !ok {
+			return 0, nil
+		}
+		p := tp.ProviderForTier2()
+		if p.Chain.Rec == nil {
+			return 0, nil
+		}
+		if _, _, err := engine.Replay(w, tr); err != nil {
+			continue
+		}
+		if _, err := env.ReplayThroughABCI(p, p.Chain.Rec); err != nil {
+			if strings.HasPrefix(err.Error(), "not replayable") {
+				continue
+			}
+			return n, fmt.Errorf("trace %v: %w", tr, err)
+		}
+		n++
+	}
+	return n, nil
+}
